@@ -167,6 +167,22 @@ let handle (line : string) : string =
        let m = List.map (fun v -> match get_key na root (n_of_string v) with Ok (Some k) -> hex_of_bytes k | Ok None -> "~" | _ -> "PANIC") vs in
        "S:" ^ String.concat "," s ^ "\tM:" ^ String.concat "," m
      | _ -> "BADCASE")
+  | "getkeyold" ->
+    (* getkeyold <version> <hex bytes> <ops> ; <vals> : get_key of the reader model on a file of an older
+       format version (written by the reference encoder); S from the content alone *)
+    (match split_on ';' rest with
+     | [hd; vals] ->
+       (match split_on ' ' (trim hd) with
+        | [_v; hexb; ops] ->
+          let content = spec_content None (parse_ops ops) [] in
+          let bs = bytes_of_hex hexb in
+          let vs = List.filter (fun x -> x <> "") (split_on ' ' (trim vals)) in
+          let s = List.map (fun v -> match spec_get_key content (n_of_string v) with Some k -> hex_of_bytes k | None -> "~") vs in
+          let (na, root) = view_of bs in
+          let m = List.map (fun v -> match get_key na root (n_of_string v) with Ok (Some k) -> hex_of_bytes k | Ok None -> "~" | _ -> "PANIC") vs in
+          "S:" ^ String.concat "," s ^ "\tM:" ^ String.concat "," m
+        | _ -> "BADCASE")
+     | _ -> "BADCASE")
   | "fmt" ->
     (* fmt <ty> <rows> <cols> <ops> \t@@\t <implementation line>: the format specification decodes the
        bytes the IMPLEMENTATION wrote (S); the model builder's bytes are compared as M *)
